@@ -101,11 +101,13 @@ TEXT["C17"] = dict(
     category="other",
     technique="Verus contract on the real ExponentialAnnealingAcceptance::execute (decision structure) + Kani on GeometricCooling::map",
     text=("The acceptance step is proved (unbounded) to reduce the two top single-individual populations to one holding either the "
-          "candidate (top) or the current solution (below) whole, rest untouched, and to ALWAYS keep a strictly better candidate. "
+          "candidate (top) or the current solution (below) whole, rest untouched, and to ALWAYS keep a candidate that is at least as "
+          "good as the current solution (through the order on SingleObjective alone, for every objective value incl. +inf). "
           "GeometricCooling::map is value * alpha bit-exactly for all f64 (complete)."),
-    note=("Floats are uninterpreted in Verus, and Kani cannot enter the State-based body: 'an at-least-as-good candidate is always "
-          "accepted' (equal values need exp(0) = 1 > u) and 'never as T -> 0' are covered ONLY by a bounded native grid run "
-          "(labelled native_bounded in the evidence, never counted as proved); the acceptance probability itself is not decided."),
+    note=("Floats are uninterpreted in Verus, and Kani cannot enter the State-based body: 'never as T -> 0', 'always as T grows "
+          "without bound' and the acceptance probability exp(-(f_cand - f_cur)/T) are covered ONLY by bounded native runs (a grid with "
+          "exact rules where exp() is exactly 0 or 1, and acceptance frequencies over 4000 seeds per cell; labelled native_bounded in "
+          "the evidence, never counted as proved)."),
 )
 
 TEXT["C08"] = dict(
@@ -134,11 +136,13 @@ TEXT["C16"] = dict(
           "lemma_bounded_loop_makes_exactly_n_passes composes them for an ARBITRARY body that leaves the counter alone (unbounded). "
           "That the bodies of the shipped templates complete without error, leave the population stack balanced (one population at the "
           "end) and keep the prescribed population size is a whole-run property of 21 compositions of dyn components: it is covered "
-          "ONLY by a bounded native run (19 templates x 3 seeds x 15 iterations). It fails for the two ILS templates (one more "
-          "population on the stack per pass), recorded as a known finding."),
+          "ONLY by bounded native runs (19 templates x (3 seeds x 15 + 30 seeds x {1,2,3,6} iterations); 36 parameter sets at the edges "
+          "of what the constructors accept; the stack height recorded at every loop test through a probe wrapped around the "
+          "termination condition). It fails for the two ILS templates (one more population on the stack per pass), recorded as a "
+          "known finding."),
     note=("Level 'other'. Planned as not applicable (no function-level contract decides a whole run); the iteration-count clause turned "
-          "out to be exactly the loop lemma already proved for C03/C10. Not covered: per-pass stack height (only the end of the run is "
-          "observed), the two ACO templates, other instances / parameter sets."),
+          "out to be exactly the loop lemma already proved for C03/C10. Not covered: the two ACO templates, other instances / parameter sets than the "
+          "ones run."),
     design_ref="DESIGN.md §6a",
 )
 
